@@ -292,6 +292,12 @@ class Gen:
         k = dnode.keys[i].value
         if not (isinstance(k, str) and k and "a" <= k[0] <= "z"):
             return dnode
+        if self.r.random() < 0.4:
+            # ... or the very same key written twice: python keeps the LAST value
+            self.feat.add("duplicate-dict-key")
+            dnode.keys.insert(i, C(k))
+            dnode.values.insert(i, C(-999))
+            return dnode
         self.feat.add("lookalike-dict-key")
         decoy = chr(ord(k[0]) - 0x61 + 0xFF41) + k[1:]
         dnode.keys.insert(i, C(decoy))
@@ -444,6 +450,15 @@ class Gen:
         return ast.IfExp(test=ast.Compare(left=C(1), ops=[ast.Lt()], comparators=[C(2)]), body=L, orelse=decoy)
 
     odd_stage_functions = False
+
+    def sprinkle_positional_only(self, q, p=0.06):
+        """some of the lambdas that are not called on the spot get positional-only parameters (`lambda j, /: ...`)"""
+        called = {id(n.func) for n in ast.walk(q) if isinstance(n, ast.Call)}
+        for n in ast.walk(q):
+            if isinstance(n, ast.Lambda) and id(n) not in called and n.args.args and not n.args.posonlyargs and not n.args.defaults and self.r.random() < p:
+                n.args.posonlyargs, n.args.args = n.args.args, []
+                self.feat.add("positional-only-parameters")
+        return q
 
     def chain(self, nstages, d, final_scalar=False):
         """-> (query ast, [stage kinds]).  A dataset followed by up to ``nstages`` operator stages."""
